@@ -1,4 +1,4 @@
-"""Proof bundle W: the unbounded queue inside the backend model (Backend/UQueue.lean, USched.lean, UOps.lean — the machine
+"""Proof bundle X: the unbounded queue inside the backend model (Backend/UQueue.lean, USched.lean, UOps.lean — the machine
 `driver backend trace` runs for the UnboundedBlocking / UnboundedDropping builds of H2). Theorems: Props/C03U.lean over the
 chain lemmas of Backend/UQueueProofs.lean and Backend/UThread.lean. The `_partial` ones are proved for every context state and
 every queue operation of the machine; the induction over `runOpsU` (walk of pollU / exitLoopU) is not done."""
